@@ -58,8 +58,18 @@ def observe(arg):
                 Z, A = t["iso"]
                 iso = P.elements[Z][A]
                 c = t["cond"]
+                if t.get("edit_reload"):
+                    # the owner edited this isotope's records, then restored the table the documented way
+                    for ai in iso.neutron_activation:
+                        ai.thermalXS = ai.thermalXS * 3 + 1
+                        ai.Thalf_hrs = ai.Thalf_hrs * 0.5
+                    activation.init(P.elements, reload=True)
+                    iso = P.elements[Z][A]
+                target = iso
+                if t.get("via_ion") and iso.ions:
+                    target = iso.ion[iso.ions[0]]          # an ion activates like its atom
                 try:
-                    res = activation.activity(iso, c["mass"], _env(c), c["exposure"], c["rests"])
+                    res = activation.activity(target, c["mass"], _env(c), c["exposure"], c["rests"])
                     exc = None
                 except Exception as e:
                     res, exc = None, type(e).__name__
@@ -131,16 +141,20 @@ def _sample(t):
     parts = {}
     masses = []
     for el, frac in f.mass_fraction.items():
-        isos = [el] if core.isisotope(el) else [el[i] for i in el.isotopes]
+        base = el.element if core.ision(el) else el          # an ion activates like its atom
+        isos = [base] if core.isisotope(base) else [base[i] for i in base.isotopes]
         for iso in isos:
-            ab = 100.0 if core.isisotope(el) else iso.abundance
+            ab = 100.0 if core.isisotope(base) else iso.abundance
             m = c["mass"] * frac * ab * 0.01
             if not m:
                 continue
             masses.append({"got": dec.to_dec(m), "frac": dec.to_dec(frac), "abundance": dec.to_dec(ab)})
             for ai, vals in activation.activity(iso, m, _env(c), c["exposure"], c["rests"]).items():
-                parts.setdefault(ai, []).append(vals[0])
-    ev["products"] = [{"total": dec.to_dec(s.activity[ai][0]), "parts": [dec.to_dec(x) for x in parts.get(ai, [])]} for ai in s.activity]
+                parts.setdefault(ai, []).append(vals)
+    # one record per (product, rest time): the sample's activity at the caller's j-th rest time
+    ev["products"] = [{"total": dec.to_dec(s.activity[ai][j]), "parts": [dec.to_dec(v[j]) for v in parts.get(ai, [])]}
+                      for ai in s.activity for j in range(len(c["rests"]))]
+    ev["missing"] = sum(1 for ai in parts if ai not in s.activity)
     ev["masses"] = masses[:40]
     return ev
 
